@@ -23,3 +23,13 @@ ENTRY void verif_seg_ends(const int* a, int* out) {
     const NodeRefSegment s = seg(a, 1);
     out[0] = s.first().location().x(); out[1] = s.first().location().y(); out[2] = s.second().location().x(); out[3] = s.second().location().y();
 }
+// the floating-point tail of calculate_intersection ("ua = na / d; i = p0 + ua * (p1 - p0)" and the cast to Location), transcribed in two
+// steps with the library's own vec operators: subject of the range lemma (C10 cbmc harnesses) that justifies treating the computed
+// point as a defined location when the whole assembler is run (assemble.cpp) with floating point kept opaque
+ENTRY double verif_ratio(long na, long d) { return static_cast<double>(na) / static_cast<double>(d); }
+ENTRY void verif_scale_add(double ua, const int* p, int* out) {
+    const vec p0{p[0], p[1]}, p1{p[2], p[3]};
+    const vec i = p0 + ua * (p1 - p0);
+    const Location l{static_cast<int32_t>(i.x), static_cast<int32_t>(i.y)};
+    out[0] = l.x(); out[1] = l.y();
+}
